@@ -228,7 +228,7 @@ MANIFEST = {
                    "conditions, rule sets and buffers across condition_optimization, fast_scan and Teddy on/off in one build, and across cargo "
                    "feature sets (no optimisation features, pulley, no exact-atoms, no fast-regexp) in the thorough tier."),
     "level_note": ("Trusted: Coq kernel, translators gen_fold/gen_bounds/gen_fastscan, harness, hook verif_c03. Repaired after this check found them: "
-                   "folding through f64 (8b83ae6a), fast scan changing verdicts of `N of (..) in (..)` (2deda6b6); their reproductions stay in the corpus. "
+                   "folding through f64 (8b83ae6a), fast scan changing verdicts of `N of (..) in (..)` (2deda6b6); their reproductions stay in the corpus. IR::minus folds with wrapping_neg since 1eeaceb7 (flag minus_wraps regenerated). "
                    "Known finding: fast scan keeps the first match it verifies, which is not always the lowest one. "
                    "Exact-atoms, FastVM/PikeVM, pulley and hoisting have no model: differential only. SIMD kernels not modelled."),
     "technique": "Coq proofs over source-generated models of each optimisation + differential scans across run-time toggles and cargo feature sets",
